@@ -5,6 +5,12 @@
 //! `sched`: one small 2-thread 2D render, one 3D render and one mesh; run under
 //!          `-Zmiri-many-seeds` every seed is a different preemption schedule
 //!          (C09). Prints a checksum that must be identical for every seed.
+//! `script`: Rhai scripts through `fidget_rhai::engine()`: every shape call
+//!          form reaches the `unsafe` reflection code that materialises
+//!          defaulted fields (`Type::build_from_default_fn`,
+//!          `eval_default_fn`) and the `facet::Partial` builder (C17). The
+//!          tree of each script is compared with the same shape built through
+//!          the Rust API; the checksum is the value at three points.
 use fidget_core::context::Tree;
 use fidget_core::render::{CancelToken, ImageSize, ThreadPool, TileSizes, VoxelSize};
 use fidget_core::vm::VmShape;
@@ -166,6 +172,87 @@ fn main() {
             t.cancel();
             println!("CHECKSUM cancel_roundtrip {:016x}", u.is_cancelled() as u64);
         }
+        "script" => script_mode(),
         _ => std::process::exit(2),
+    }
+}
+
+fn tree_sum(t: &Tree) -> u64 {
+    let mut ctx = fidget_core::Context::new();
+    let n = ctx.import(t);
+    let mut h = 0xcbf29ce484222325u64;
+    for (x, y, z) in [(0.1f32, 0.2, 0.3), (-0.7, 0.4, 1.5), (2.0, -1.0, 0.25)] {
+        let v = ctx.eval_xyz(n, x, y, z).expect("eval");
+        fnv(&mut h, (v as f32).to_bits() as u64);
+    }
+    h
+}
+
+fn script_mode() {
+    use fidget_shapes::types::{Vec2, Vec3};
+    use fidget_shapes::*;
+    let (x, y, _z) = Tree::axes();
+    let circ = |cx: f32, cy: f32, r: f32| Tree::from(Circle { center: Vec2::new(cx, cy), radius: r });
+    let sph = |c: (f32, f32, f32), r: f32| Tree::from(Sphere { center: Vec3::new(c.0, c.1, c.2), radius: r });
+    // (name, script, the same shape through the Rust API)
+    let cases: Vec<(&str, &str, Tree)> = vec![
+        ("map_full", "circle(#{ center: vec2(1.0, 2.0), radius: 3.0 })", circ(1.0, 2.0, 3.0)),
+        ("map_default_radius", "circle(#{ center: [1, 2] })", circ(1.0, 2.0, 1.0)),
+        ("map_default_center", "sphere(#{ radius: 3 })", sph((0.0, 0.0, 0.0), 3.0)),
+        ("unique_any_order", "circle(3, [1, 2])", circ(1.0, 2.0, 3.0)),
+        ("unique_default", "circle([1, 2])", circ(1.0, 2.0, 1.0)),
+        ("unique_sphere", "sphere([1, 2, 4], 0.5)", sph((1.0, 2.0, 4.0), 0.5)),
+        (
+            "map_vec2_to_vec3_offset",
+            "move(#{ shape: circle(#{ center: [1, 2], radius: 3 }), offset: [1, 1] })",
+            Tree::from(Move { shape: circ(1.0, 2.0, 3.0), offset: Vec3::new(1.0, 1.0, 0.0) }),
+        ),
+        (
+            "map_vec2_to_vec3_scale",
+            "scale(#{ shape: sphere(#{ radius: 0.5 }), scale: [2, 4] })",
+            Tree::from(Scale { shape: sph((0.0, 0.0, 0.0), 0.5), scale: Vec3::new(2.0, 4.0, 1.0) }),
+        ),
+        (
+            "chain_move",
+            "sphere(#{ radius: 0.5 }).move([1, 2, 3])",
+            Tree::from(Move { shape: sph((0.0, 0.0, 0.0), 0.5), offset: Vec3::new(1.0, 2.0, 3.0) }),
+        ),
+        (
+            "chain_map_omit_default",
+            "circle([0, 0], 2).scale(#{ scale: [2, 2, 2] })",
+            Tree::from(Scale { shape: circ(0.0, 0.0, 2.0), scale: Vec3::new(2.0, 2.0, 2.0) }),
+        ),
+        (
+            "reduce_union",
+            "union([circle([1, 2], 3), sphere(#{ radius: 2 }), x + y])",
+            Tree::from(Union { input: vec![circ(1.0, 2.0, 3.0), sph((0.0, 0.0, 0.0), 2.0), x.clone() + y.clone()] }),
+        ),
+        (
+            "two_tree_difference",
+            "difference(sphere(#{ radius: 2 }), circle([0, 0]))",
+            Tree::from(Difference { shape: sph((0.0, 0.0, 0.0), 2.0), cutout: circ(0.0, 0.0, 1.0) }),
+        ),
+    ];
+    let mut bad = false;
+    for (name, script, want) in cases {
+        let engine = fidget_rhai::engine();
+        match engine.eval::<Tree>(script) {
+            Ok(got) => {
+                let (a, b) = (tree_sum(&got), tree_sum(&want));
+                if got != want || a != b {
+                    println!("MISMATCH script_{name} script {a:016x} rust {b:016x}");
+                    bad = true;
+                } else {
+                    println!("CHECKSUM script_{name} {a:016x}");
+                }
+            }
+            Err(e) => {
+                println!("MISMATCH script_{name} error {e}");
+                bad = true;
+            }
+        }
+    }
+    if bad {
+        std::process::exit(3);
     }
 }
